@@ -232,6 +232,19 @@ Section C.
     snd (curvature cdT cdG cond_x gOff solve naive is_nan global_eq cval s x T p false) = aget p (curv_out s).
   Proof. exact (curvature_fallback X Tm G Y Res Smp Val Cd cdT cdG cond_x gOff solve naive is_nan global_eq cval s x T p l0). Qed.
 
+  (* a precipitate composition set that stays cached after an answered tangent query (removeCache = False) is never
+     one that this query found collapsed onto the matrix composition (order / disorder phases below the solvus): such a
+     set is dropped before the fall-back on sampling, so it cannot be the starting point of later queries.
+     No hypothesis about pycalphad. *)
+  Theorem C09_tangent_never_caches_collapsed (s s' : tstate Tm G Y Smp Val) x T p v c0 rest mcs :
+    df_tangent Tm_eqb cdT cdG cond_x cond_mu g0 gOff solve naive is_nan sample best gval xval same_comp s x T p false = (s', Some v) ->
+    aget p (df_cs s') = Some (c0 :: rest) -> mat_cs s' = Some mcs ->
+    same_comp c0 mcs = false.
+  Proof.
+    exact (tangent_never_caches_collapsed X Tm G Y Res Smp Val Tm_eqb Cd cdT cdG cond_x cond_mu g0 gOff solve naive is_nan
+             sample best gval xval same_comp s s' x T p v c0 rest mcs).
+  Qed.
+
   (* ---- hypotheses about pycalphad (sampled by the harness, not proved) ---- *)
   Hypothesis Tm_eqb_spec : forall a b, Tm_eqb a b = true <-> a = b.
   (* the converged result does not depend on the internal degrees of freedom of the composition sets
@@ -248,6 +261,18 @@ Section C.
     forall cm cp, pick 0%nat l = Some cm -> pick p l = Some cp ->
       local_eq cdT cdG solve naive [0%nat; p] (cond_x x T gOff) (Some l0) = (mu, [cm; cp]) /\
       cs_ph cm = 0%nat /\ cs_ph cp = p.
+
+  (* the sampled points are keyed by the EXACT temperature: whatever the cache of the phase held before (the same, a
+     nearby or a distant temperature), the driving force at T is evaluated on the samples of T and those are what is left
+     in the cache.  Needs only that the comparison of temperatures in the code is equality (Tm_eqb_spec). *)
+  Theorem C09_samples_keyed_by_exact_temperature m (s : tstate Tm G Y Smp Val) T mu p :
+    wf Tm G Y Smp Val sample m s ->
+    snd (prec_sample Tm_eqb gOff sample best s T mu p) = (let (dg, y) := best (sample p T) mu in (dg, mkcs p T gOff y)) /\
+    aget p (pts (fst (prec_sample Tm_eqb gOff sample best s T mu p))) = Some (T, sample p T).
+  Proof.
+    exact (fun W => conj (prec_sample_value Tm G Y Res Smp Val Tm_eqb Tm_eqb_spec gOff sample best m s T mu p W)
+                         (prec_sample_cache Tm G Y Res Smp Val Tm_eqb Tm_eqb_spec gOff sample best m s T mu p W)).
+  Qed.
 
   Notation run := (run Tm_eqb cdT cdG cond_x cond_mu g0 gOff solve naive is_nan sample best global_eq dval tval gval xval aval same_comp cval).
   Notation run1 := (run1 Tm_eqb cdT cdG cond_x cond_mu g0 gOff solve naive is_nan sample best global_eq dval tval gval xval aval same_comp cval).
@@ -296,6 +321,8 @@ Print Assumptions C09_reset_df_exact.
 Print Assumptions C09_diffusivity_cache_per_phase.
 Print Assumptions C09_curvature_remove_cache.
 Print Assumptions C09_curvature_fallback.
+Print Assumptions C09_tangent_never_caches_collapsed.
+Print Assumptions C09_samples_keyed_by_exact_temperature.
 Print Assumptions C09_history_independent.
 Print Assumptions C09_repeat_same.
 Print Assumptions C09_history_wf.
